@@ -290,6 +290,10 @@ func runTrace(spec traceSpec, mode string, verbose bool) (res traceResult) {
 			if strings.HasPrefix(raw, "elected:") {
 				c.permute(0)
 			}
+			// "?step": a step that the schedule takes if it is enabled (e.g. the delivery of a message that only some
+			// behaviours produce) and skips otherwise
+			optional := strings.HasPrefix(raw, "?")
+			raw = strings.TrimPrefix(raw, "?")
 			st, run := c.resolve(raw)
 			if !run {
 				if c.unreal != "" {
@@ -299,6 +303,10 @@ func runTrace(spec traceSpec, mode string, verbose bool) (res traceResult) {
 			}
 			cut := len(c.toks)
 			if !c.step(st) {
+				if optional && c.unreal == "" {
+					c.event("optional step %s: not enabled, skipped", st)
+					continue
+				}
 				if c.unreal == "" {
 					c.unrealisable(fmt.Sprintf("scripted step %q (%s) is not enabled at step %d", raw, st, c.stepNo+1))
 				}
@@ -378,6 +386,8 @@ type scheduler struct {
 	warm    []string
 	curLead int
 	prevLead int
+	parks     int
+	heldSteps int
 }
 
 func newScheduler(c *cluster, r *hx.Rng, spec traceSpec) *scheduler {
@@ -455,6 +465,70 @@ type choice struct {
 	w  int
 }
 
+// pickHeld: a flush of node h is held by the schedule (armed or parked).  Until it is released only the traffic around
+// it goes on: deliveries of appends and acks, client operations on the leader, and the fate of the held flush.
+func (s *scheduler) pickHeld(h int) string {
+	c := s.c
+	var ch []choice
+	add := func(st string, w int) { ch = append(ch, choice{st, w}) }
+	for _, d := range c.enabledDeliveries() {
+		switch {
+		case d == fmt.Sprintf("app:%d>%d", s.curLead, h) || strings.HasSuffix(d, fmt.Sprintf(">%d", h)) && strings.HasPrefix(d, "app:"):
+			add(d, 14)
+		case strings.HasPrefix(d, "app:") || strings.HasPrefix(d, "ack:"):
+			add(d, 8)
+		}
+	}
+	if el := c.el; el != nil && el.leader != 0 && el.leader != h {
+		c.mu.Lock()
+		ln := c.node(el.leader)
+		ok := ln.up && ln.status == proto.ServingStatus_LEADER && ln.asyncRPC == 0
+		c.mu.Unlock()
+		if ok {
+			st := s.clientStep(el.leader)
+			if strings.HasPrefix(st, "w:") {
+				add(st, 14)
+			} else {
+				add(st, 4)
+			}
+		}
+	}
+	c.mu.Lock()
+	parked := c.node(h).parked != nil
+	c.mu.Unlock()
+	s.heldSteps++
+	if parked {
+		add(fmt.Sprintf("fnext:%d", h), 5)
+		add(fmt.Sprintf("frelease:%d", h), 5)
+		add(fmt.Sprintf("powerloss:%d", h), 5)
+		add(fmt.Sprintf("crash:%d", h), 1)
+	} else {
+		add(fmt.Sprintf("frelease:%d", h), 2)
+	}
+	if s.heldSteps > 30 {
+		s.heldSteps = 0
+		return fmt.Sprintf("frelease:%d", h)
+	}
+	tot := 0
+	for _, x := range ch {
+		tot += x.w
+	}
+	v := s.r.Intn(tot)
+	for _, x := range ch {
+		if v < x.w {
+			if !strings.HasPrefix(x.st, "app:") && !strings.HasPrefix(x.st, "ack:") && !strings.HasPrefix(x.st, "w:") && !strings.HasPrefix(x.st, "r:") && !strings.HasPrefix(x.st, "fnext:") {
+				s.heldSteps = 0
+			}
+			if strings.HasPrefix(x.st, "powerloss:") || strings.HasPrefix(x.st, "crash:") {
+				s.crashes++
+			}
+			return x.st
+		}
+		v -= x.w
+	}
+	return fmt.Sprintf("frelease:%d", h)
+}
+
 func (s *scheduler) pick() string {
 	c := s.c
 	var ch []choice
@@ -477,6 +551,9 @@ func (s *scheduler) pick() string {
 	}
 	if c.ctl == nil {
 		return "start"
+	}
+	if h := c.anyFlushHeld(); h != 0 {
+		return s.pickHeld(h)
 	}
 	el := c.el
 	if el != nil && el.leader != 0 && el.phase == "idle" {
@@ -614,6 +691,19 @@ func (s *scheduler) pick() string {
 						w = 3 // a follower that holds entries
 					}
 					add(fmt.Sprintf("diskloss:%d", x), w)
+				}
+			}
+		}
+	}
+	// the schedule holds the next WAL flush of a follower that is being replicated to (appends land while it is in flight)
+	if s.faulty && c.captureFlush && el != nil && el.phase == "idle" && el.leader != 0 && !c.swapRunning() && s.parks < 3 {
+		for _, k := range c.cursors {
+			if k.alive && k.l == el.leader && k.stream != nil && k.stream.alive() && !c.busy(k.f) {
+				c.mu.Lock()
+				fol := c.node(k.f).up && c.node(k.f).status == proto.ServingStatus_FOLLOWER
+				c.mu.Unlock()
+				if fol {
+					add(fmt.Sprintf("fpark:%d", k.f), 2)
 				}
 			}
 		}
